@@ -559,6 +559,89 @@ pub fn special(rec: &mut Rec) {
     rec.obs("special2");
 }
 
+/// Combination proofs of the schemes that use the trait's DEFAULT `open_combinations` (Hyrax and the linear codes): the
+/// proof is a batch proof over the polynomial queries the combinations NEED - (polynomial, point) for every polynomial
+/// term of a combination queried at that point - plus one evaluation per needed query.  Families: k = 2, 3, 4
+/// single-polynomial combinations each at a point label of its own; the same sharing one point; two-term combinations at
+/// their own points; a chain (L0 = p0, L1 = p0 + p1, L2 = p1 + p2) at three points.  The batch part must have exactly
+/// the size of `batch_open` over the needed queries, and `evals` exactly their number.
+pub fn default_combination_sizes<S: Sch>(rec: &mut Rec) {
+    use ark_poly_commit::{LCTerm, LinearCombination};
+    let cfg = crate::scope::slice_b::<S>();
+    let mut keys: Option<Keys<S>> = None;
+    let families: Vec<(&str, Vec<Vec<usize>>, Vec<usize>)> = vec![
+        // (name, polynomial indices per combination, point index per combination)
+        ("2-own-points", vec![vec![0], vec![1]], vec![0, 1]),
+        ("3-own-points", vec![vec![0], vec![1], vec![2]], vec![0, 1, 2]),
+        ("4-own-points", vec![vec![0], vec![1], vec![2], vec![3]], vec![0, 1, 2, 3]),
+        ("4-own-points-reversed", vec![vec![3], vec![2], vec![1], vec![0]], vec![0, 1, 2, 3]),
+        ("3-one-point", vec![vec![0], vec![1], vec![2]], vec![0, 0, 0]),
+        ("2-pairs-own-points", vec![vec![0, 1], vec![2, 3]], vec![0, 1]),
+        ("chain", vec![vec![0], vec![0, 1], vec![1, 2]], vec![0, 1, 2]),
+    ];
+    for (fname, members, at) in families {
+        let id = format!("{}/lc-size/{}/{}", S::NAME, cfg.id(), fname);
+        if !rec.take(&id) {
+            continue;
+        }
+        if keys.is_none() {
+            keys = build_keys::<S>(&cfg, rec.seed).ok();
+        }
+        let keys = match &keys {
+            Some(k) => k,
+            None => return,
+        };
+        rec.dim("scheme", S::NAME);
+        let shapes = S::shapes(&cfg, rec.seed);
+        let polys: Vec<LP<S>> = (0..4).map(|i| lp::<S>(&format!("p{}", i), shapes[shapes.len() - 1 - (i % shapes.len().min(2))].1.clone(), None, None)).collect();
+        let c = match commit_set::<S>(keys, polys, rec.seed, 0) {
+            Ok(c) => c,
+            Err(_) => continue,
+        };
+        let pts = S::points(&cfg, rec.seed);
+        if pts.len() < 4 {
+            continue;
+        }
+        let mut lcs = Vec::new();
+        let mut qs = QuerySet::<S::Pt>::new();
+        let mut need = QuerySet::<S::Pt>::new();
+        for (k, m) in members.iter().enumerate() {
+            let mut l = LinearCombination::<S::F>::empty(format!("L{}", k));
+            for i in m {
+                l.push((S::F::one(), LCTerm::PolyLabel(format!("p{}", i))));
+                need.insert((format!("p{}", i), (format!("z{}", at[k]), pts[at[k]].1.clone())));
+            }
+            lcs.push(l);
+            qs.insert((format!("L{}", k), (format!("z{}", at[k]), pts[at[k]].1.clone())));
+        }
+        let (pr, cr, sr) = c.refs();
+        let mut sponge = sponge_pre::<S::F>(0);
+        let mut rng = seed_rng(rec.seed, 20);
+        let lc_proof = do_open_comb::<S>(&keys.ck, &lcs, &pr, &cr, &qs, &mut sponge, &sr, Some(&mut rng as &mut dyn ark_std::rand::RngCore));
+        let all: Vec<usize> = (0..4).collect();
+        let plain = open_batch::<S>(keys, &c, &all, &need, 0, rec.seed, 0);
+        rec.count_points(1);
+        rec.op(2);
+        match (lc_proof, plain) {
+            (Ok(pf), Ok(b)) => {
+                let (lb, _) = sz(&pf.proof);
+                let (pb, _) = sz(&b.proof);
+                let ne = pf.evals.as_ref().map(|e| e.len());
+                rec.obs(&format!("{}|default-lc|{}|{}", S::NAME, fname, lb == pb));
+                if lb != pb || ne != Some(need.len()) {
+                    rec.class("size-law-broken");
+                    viol(rec, S::NAME, "combination-proof-size", &id, format!("combination proof: batch part {} bytes and {:?} evaluations; the {} needed polynomial queries take {} bytes", lb, ne, need.len(), pb));
+                } else {
+                    rec.class("size-law-holds");
+                }
+            }
+            (Err(o), _) => viol(rec, S::NAME, "open_combinations/in-domain", &id, format!("open_combinations failed: {}", o.short())),
+            (_, Err(o)) => viol(rec, S::NAME, "batch_open/in-domain", &id, format!("batch_open failed: {}", o.short())),
+        }
+        rec.sample(&format!("{}-lc-size", S::NAME), id.clone());
+    }
+}
+
 pub fn run(rec: &mut Rec) {
     let t = rec.thorough();
     let ladder: Vec<usize> = (1..=8).map(|k| 1usize << k).collect();
@@ -588,6 +671,10 @@ pub fn run(rec: &mut Rec) {
     group_scheme::<SHyr>(rec, (1..=if t { 6 } else { 5 }).map(|k| KeyCfg::ml(2 * k)).collect());
     hash_scheme::<SLig>(rec, t);
     lig_one_call_sizes(rec);
+    default_combination_sizes::<SHyr>(rec);
+    default_combination_sizes::<SLig>(rec);
+    default_combination_sizes::<SMll>(rec);
+    default_combination_sizes::<SBrk>(rec);
     lig_pool_sizes(rec);
     hash_scheme::<SMll>(rec, t);
     hash_scheme::<SBrk>(rec, t);
